@@ -91,11 +91,9 @@ type c16Case struct {
 	Ops []int `json:"ops"`
 }
 
-func keepC16Handles(name string) bool { return name == "root" }
-
 func c16Check(c c16Case) (string, []Violation, int) {
 	// reset, forgetting the tag and the handles a previous sequence created
-	log.VerifReset(func(n string) bool { return keepBuiltinTags(n) && n != "_vfz_new" }, keepC16Handles)
+	log.VerifReset()
 	confReset2()
 	var names []string
 	for _, o := range c.Ops {
